@@ -14,6 +14,8 @@ EXPLANATION = (
     'repeats (epsilon cycles) are reported separately. Look-arounds/anchors are treated as epsilon (only adds paths, '
     'so "no ambiguity" stays sound); a back-reference is replaced by a copy of its group. With C01/R1.2 (every row has '
     'minimum width >= 1) a match attempt is polynomial and tokenising is polynomial in the input length. '
+    'R16.4: no regex reaches the rule table except the foldable rows of keywords.SQL_REGEX (only clear() and the comprehension in '
+    'set_SQL_REGEX write self._SQL_REGEX); non-foldable re.compile arguments elsewhere are analysed as templates. '
     'Not decided: the concrete time budget of the second sentence of C16 (a timing measurement).')
 
 CONTROLS = [
